@@ -125,6 +125,17 @@ EXT_HAND = [
     {"left": "s :- q(1). p(X) :- q(X), not s.", "right": "p(X) :- q(X), not q(1).", "ug": UG0},
     {"left": "p(X) :- q(X), X = n.", "right": "p(n) :- q(n).", "ug": UG0 + " input: n -> integer."},
     {"left": "p(X) :- q(X), X = c.", "right": "p(c) :- q(c).", "ug": UG0 + " input: c."},
+    # a private predicate that one side only uses (no rule) and the other side defines
+    {"left": "p(X) :- q(X), not aux(X).", "right": "aux(X) :- q(X). p(X) :- q(X), not aux(X).", "ug": UG0},
+    {"left": "aux(X) :- q(X), X > 0. p(X) :- q(X), not aux(X).", "right": "p(X) :- q(X), not aux(X).", "ug": UG0},
+    {"left": "p(X) :- q(X), aux(X).", "right": "aux(X) :- q(X+1). p(X) :- q(X), aux(X).", "ug": UG0},
+    # specifications that are not definitions
+    {"spec": "spec: exists X (p(X) <-> not q(X)).", "right": "p(X) :- q(X).", "ug": UG0 + " assumption: q(1) and not q(0)."},
+    {"spec": "spec: exists X (p(X) <-> not q(X)).", "right": "p(X) :- q(X).", "ug": UG0},
+    {"spec": "spec: forall X (exists Y (p(X) <-> q(Y))).", "right": "p(X) :- q(X).", "ug": UG0},
+    {"spec": "spec: exists X (q(X) and (p(X) <-> X > 0)).", "right": "p(X) :- q(X), X > 0.", "ug": UG0},
+    {"spec": "spec: (exists X q(X)) <-> (exists X p(X)).", "right": "p(X) :- q(X), X > 0.", "ug": UG0},
+    {"spec": "spec: not forall X (p(X) <-> q(X)).", "right": "p(X) :- q(X), X != 0.", "ug": UG0},
 ]
 
 
@@ -230,3 +241,45 @@ def run_C02(ctx):
     return V.finish(ctx, "translation_validation", coverage, violations, C.TV_ASSUME + [
         "tasks without proof outline (outlines are C13's subject); vocabularies free of the clashes anthem resolves by renaming symbols (C09)",
         "the documented `_p` suffix of clashing program-private predicates is used to read the right side of an interpretation"])
+
+
+# ------------------------------------------------------------------------------------------------ C19
+def run_C19(ctx):
+    V.build()
+    q = ctx.quick()
+    # every flag combination for every task (the quick tiers of C02/C03 use subsets)
+    orig_quick = ctx.tier
+    s_cases, s_usable, s_skipped, s_panics = strong_records(ctx, 45, 1200)
+    e_cases, e_usable, e_skipped, e_panics, refused = ext_records(ctx, 45, 1800)
+    if q:
+        # re-run the harness with the full families for the usable cases
+        allS, allE = flagsets(), ext_flagsets()
+        ids = {r["id"] for r in s_usable}
+        sc = [dict(c, flagsets=allS) for c in s_cases if c["id"] in ids][:40]
+        ide = {r["id"] for r in e_usable}
+        ec = [dict(c, flagsets=allE) for c in e_cases if c["id"] in ide][:40]
+        pp = {r["id"]: r["pp"] for r in s_usable + e_usable}
+        recs = V.run_harness(ctx, "problems", sc, tag="-s19") + V.run_harness(ctx, "problems", ec, tag="-e19")
+        usable = []
+        for r in recs:
+            if r["kind"] in ("strong", "external") and r["id"] in pp:
+                r["pp"] = pp[r["id"]]
+                usable.append(r)
+    else:
+        usable = s_usable + e_usable
+    verdicts = V.tlc_validate(ctx, "TraceSem", usable, {"VERIF_HTCAP": 5 if q else 6, "VERIF_CLCAP": 9 if q else 11})
+    stats, violations = V.collect(verdicts, usable, "C19")
+    for p in s_panics + e_panics:
+        violations.append({"check": "C19.panic", "text": p["text"], "detail": f"anthem panicked under {p['flags']}: {p['panic']}", "record": p})
+    nfam = sum(len([f for f in r["families"] if "problems" in f]) for r in usable)
+    coverage = {
+        "programs": len(usable), "families_compared": nfam, "disagreements_checked": stats["verdicts"] - stats["skip"],
+        "evaluations": stats["evaluations"], "unknown_evaluations": stats["unknown"], "distinct_nontrivial": len(stats["nontrivial_ids"]),
+        "vacuous_or_constant": stats["vacuous"], "skipped": {"strong": s_skipped, "external": e_skipped}, "tasks_refused_by_anthem": refused,
+        "rule": "the C03 and C02 tasks, each under ALL combinations of --no-simplify x --no-eq-break x --decomposition (and tau-star/mu for strong "
+                "equivalence); for every interpretation of the enumeration of C03 / C02 the predicate 'some problem of the direction is refuted' "
+                "must have the same definite value in every family (no reference semantics involved); non-trivial = refuted by some "
+                "interpretation and not by another",
+        "samples": C.sample_records(usable, [v for v in verdicts if v["check"].startswith("C19")][:20]), "exhaustive": False,
+    }
+    return V.finish(ctx, "translation_validation", coverage, violations, C.TV_ASSUME)
